@@ -750,9 +750,11 @@ pub fn decrypt_chunk_with_keys(
     key_store: &TactKeyStore,
     block_index: usize,
 ) -> BlteResult<Vec<u8>> {
-    if data.len() < 17 {
+    // 15 header bytes (key name size, key name, IV size, 4-byte IV, type) plus at
+    // least the inner mode byte: an encrypted chunk with empty content is 16 bytes
+    if data.len() < 16 {
         return Err(BlteError::CompressionError(format!(
-            "Encrypted chunk too short: {} bytes (minimum 17)",
+            "Encrypted chunk too short: {} bytes (minimum 16)",
             data.len()
         )));
     }
